@@ -1,44 +1,60 @@
-import FxVerif.Model.C08
+import FxVerif.Model.C08U
+import FxVerif.Model.C08Cache
 import FxVerif.Model.Util
-/-! line-protocol driver for the C08 model.  Denominations / contracts are group numbers, alias `100 + 10 g + c` is the
-bridge denomination of group `g` on chain `c`; aliases below 100 name base denominations (malformed stream). -/
+/-! line-protocol driver for the C08 model (unified, denomination / contract level).
+
+Coin denominations are numbers: `d < 100` base denominations, `100 + 10 g + c` the bridge denomination of family `g` on
+chain `c` (any denomination may be made an alias of any registered denomination).  ERC-20 contracts are numbers
+(`0` = WFX, module-deployed and external contracts are numbered by the harness in order of appearance).
+Every answer is `<ok | err:kind> | <ledger> | <indexes>`; `mix …` lines are answered by the StateDB cache model. -/
 open FxVerif FxVerif.Util FxVerif.Model.Ledger FxVerif.Model.Flows FxVerif.Model.C08
 
 structure St where
-  L : Ledger
-  idx : Idx
+  u : UState
+  ext : List Nat        -- externally deployed (externally owned) contracts
 
-def idx0 : Idx := addPair { md := [(0, [])] } ⟨0, 0, true, false⟩
+def idx0 : Idx := genesisIdx
+
+def ownerFn (ext : List Nat) : Asset → Option Addr
+  | .erc ct => if ext.contains ct then some (.ext 1) else some .erc20Mod
+  | _ => none
 
 def ledger0 : Ledger where
   bal := fun a x => match a, x with
     | .base 0, .user u => if u < 3 then 1000 else 0
     | _, _ => 0
   supply := fun _ => 0
-  owner := fun a => match a with | .erc _ => some .erc20Mod | _ => none
+  owner := ownerFn []
 
-def cfgOf (i : Idx) : CCfg where
-  kindReg := fun g => match lookup g i.byDenom with
-    | some id => (lookup id i.pairs).map (fun p => if p.external then Kind.externalOwned else if g = 0 then .fx else .moduleOwned)
-    | none => none
-  enabled := fun g => match lookup g i.byDenom with
-    | some id => ((lookup id i.pairs).map (·.enabled)).getD false
-    | none => false
-  hasAlias := fun g c => match lookup g i.md with
-    | some as => as.contains (100 + 10 * g + c)
-    | none => false
+def st0 : St := ⟨{ idx := idx0, L := ledger0 }, []⟩
 
 def nG : Nat := 8
+def nCt : Nat := 48
 def accts : List (String × Addr) := [("u0", .user 0), ("u1", .user 1), ("u2", .user 2), ("e", .erc20Mod), ("w", .wfx)]
-def assetsOf (g : Nat) : List (String × Asset) :=
-  [(s!"g{g}B", .base g), (s!"g{g}b0", .bridge g 0), (s!"g{g}b1", .bridge g 1), (s!"g{g}b2", .bridge g 2), (s!"g{g}T", .erc g)]
+def coinIds : List Nat := List.range nG ++ (List.range nG).flatMap (fun g => (List.range 3).map (fun c => 100 + 10 * g + c))
+def assets : List (String × Asset) :=
+  coinIds.map (fun d => (s!"d{d}", coinAsset d)) ++ (List.range nCt).map (fun ct => (s!"c{ct}", Asset.erc ct))
+
+def lookupD {α : Type} [BEq α] (k : α) : List (α × Nat) → Nat
+  | [] => 0
+  | (k', v) :: rest => if k' == k then v else lookupD k rest
+
+/-- rebuild the ledger functions from a finite table of the tracked keys (keeps closures shallow; identity on every
+tracked key, and the flows never touch an untracked one) -/
+def compact (ext : List Nat) (L : Ledger) : Ledger :=
+  let tb : List ((Asset × Addr) × Nat) := assets.flatMap fun (_, a) => accts.filterMap fun (_, x) =>
+    let v := L.bal a x
+    if v == 0 then none else some ((a, x), v)
+  let ts : List (Asset × Nat) := assets.filterMap fun (_, a) =>
+    let v := L.supply a
+    if v == 0 then none else some (a, v)
+  { bal := fun a x => lookupD (a, x) tb, supply := fun a => lookupD a ts, owner := ownerFn ext }
 
 def showLedger (L : Ledger) : String :=
-  let all := (List.range nG).flatMap assetsOf
-  let bals := accts.flatMap fun (an, a) => all.filterMap fun (sn, as) =>
+  let bals := accts.flatMap fun (an, a) => assets.filterMap fun (sn, as) =>
     let v := L.bal as a
     if v == 0 then none else some s!"{an}.{sn}={v}"
-  let sups := all.filterMap fun (sn, as) =>
+  let sups := assets.filterMap fun (sn, as) =>
     if as == Asset.base 0 then none else
     let v := L.supply as
     if v == 0 then none else some s!"s.{sn}={v}"
@@ -53,60 +69,86 @@ def showIdx (i : Idx) : String :=
   let ms := (i.md.mergeSort (fun a b => a.1 ≤ b.1)).map fun (d, l) => s!"M{d}=" ++ ",".intercalate (l.map toString)
   " ".intercalate (ps ++ ds ++ es ++ as ++ ms)
 
+def showErr : Err → String
+  | .insufficient => "funds"
+  | .notOwner => "funds"
+  | .notFound => "notfound"
+  | .invalid => "invalid"
+  | .disabled => "disabled"
+
 def parseList (w : String) : Option (List Nat) := if w == "-" then some [] else (w.splitOn ",").mapM String.toNat?
-def parseDen (w : String) : Option Den := if w == "B" then some .base else w.toNat?.map Den.chain
 
 def mintTo (L : Ledger) (a : Asset) (x : Addr) (n : Nat) : Ledger :=
   (L.setBal a x (L.bal a x + n)).setSupply a (L.supply a + n)
 
+def answer (st : St) (res : String) : St × String :=
+  (st, res ++ " | " ++ showLedger st.u.L ++ " | " ++ showIdx st.u.idx ++ (if st.u.enable then "" else " off"))
+
+def msg (st : St) (op : UOp) : St × String :=
+  match stepU st.u op with
+  | .ok u' => answer { st with u := { u' with L := compact st.ext u'.L } } "ok"
+  | .error e => answer st ("err:" ++ showErr e)
+
+def nats (ws : List String) : Option (List Nat) := ws.mapM String.toNat?
+
 def step (st : St) (line : String) : St × String :=
-  let led (r : Except Err Ledger) : St × String :=
-    match r with
-    | .ok L' => ({ st with L := L' }, "ok " ++ showLedger L')
-    | .error _ => (st, "err " ++ showLedger st.L)
-  let ix (r : Except Err Idx) : St × String :=
-    match r with
-    | .ok i => ({ st with idx := i }, "ok " ++ showIdx i)
-    | .error _ => (st, "err " ++ showIdx st.idx)
   match words line with
-  | "reset" :: _ => (⟨ledger0, idx0⟩, "ok")
-  | ["fund", k, g, u, n] =>
-    match k.toNat?, g.toNat?, u.toNat?, n.toNat? with
-    | some k, some g, some u, some n =>
-      let a : Asset := if k == 0 then .base g else if k ≤ 3 then .bridge g (k - 1) else .erc g
-      let L' := mintTo st.L a (.user u) n
-      -- an externally deployed ERC-20 is owned by its deployer
-      let L' := if k == 4 then { L' with owner := fun a' => if a' = a then some (.ext 1) else L'.owner a' } else L'
-      ({ st with L := L' }, "ok " ++ showLedger L')
-    | _, _, _, _ => (st, "bad-op")
-  | ["ccoin", g, u, r, n] =>
-    match g.toNat?, u.toNat?, r.toNat?, n.toNat? with
-    | some g, some u, some r, some n => led (stepC (cfgOf st.idx) st.L (.coin g u r n))
-    | _, _, _, _ => (st, "bad-op")
-  | ["cerc", g, u, r, n] =>
-    match g.toNat?, u.toNat?, r.toNat?, n.toNat? with
-    | some g, some u, some r, some n => led (stepC (cfgOf st.idx) st.L (.erc g u r n))
-    | _, _, _, _ => (st, "bad-op")
-  | ["cden", g, u, r, n, a, b] =>
-    match g.toNat?, u.toNat?, r.toNat?, n.toNat?, parseDen a, parseDen b with
-    | some g, some u, some r, some n, some a, some b => led (stepC (cfgOf st.idx) st.L (.den g u r n a b))
-    | _, _, _, _, _, _ => (st, "bad-op")
+  | "reset" :: _ => (st0, "ok")
+  | "mix" :: rest => (st, FxVerif.Model.C08Cache.answerMix rest)
+  | ["fundc", d, u, n] =>
+    match nats [d, u, n] with
+    | some [d, u, n] => answer { st with u := { st.u with L := compact st.ext (mintTo st.u.L (coinAsset d) (.user u) n) } } "ok"
+    | _ => (st, "bad-op")
+  | ["deploy", ct] =>
+    match ct.toNat? with
+    | some ct =>
+      let ext := ct :: st.ext
+      answer { u := { st.u with L := compact ext st.u.L }, ext := ext } "ok"
+    | none => (st, "bad-op")
+  | ["funde", ct, u, n] =>
+    match nats [ct, u, n] with
+    | some [ct, u, n] => answer { st with u := { st.u with L := compact st.ext (mintTo st.u.L (.erc ct) (.user u) n) } } "ok"
+    | _ => (st, "bad-op")
+  | ["kill", ct] =>
+    match ct.toNat? with
+    | some ct =>
+      -- the account, its code and its storage are gone: every balance and the total supply read as zero
+      let L : Ledger := { st.u.L with bal := fun a x => if a = .erc ct then 0 else st.u.L.bal a x,
+                                      supply := fun a => if a = .erc ct then 0 else st.u.L.supply a }
+      answer { st with u := { st.u with L := compact st.ext L, dead := ct :: st.u.dead } } "ok"
+    | none => (st, "bad-op")
+  | ["ccoin", d, u, r, n] =>
+    match nats [d, u, r, n] with
+    | some [d, u, r, n] => msg st (.convertCoin d u r n)
+    | _ => (st, "bad-op")
+  | ["cerc", ct, u, r, n] =>
+    match nats [ct, u, r, n] with
+    | some [ct, u, r, n] => msg st (.convertERC20 ct u r n)
+    | _ => (st, "bad-op")
+  | ["cden", d, u, r, n, t] =>
+    match nats [d, u, r, n], (if t == "E" then some none else t.toNat?.map some) with
+    | some [d, u, r, n], some t => msg st (.convertDenom d u r n t)
+    | _, _ => (st, "bad-op")
   | ["regcoin", d, ct, as] =>
     match d.toNat?, ct.toNat?, parseList as with
-    | some d, some ct, some as => ix (stepIdx st.idx (.registerCoin d ct as))
+    | some d, some ct, some as => msg st (.idx (.registerCoin d ct as))
     | _, _, _ => (st, "bad-op")
   | ["regerc", d, ct, as] =>
     match d.toNat?, ct.toNat?, parseList as with
-    | some d, some ct, some as => ix (stepIdx st.idx (.registerERC20 d ct as))
+    | some d, some ct, some as => msg st (.idx (.registerERC20 d ct as))
     | _, _, _ => (st, "bad-op")
   | ["toggle", d] =>
     match d.toNat? with
-    | some d => ix (stepIdx st.idx (.toggle d))
+    | some d => msg st (.idx (.toggle d))
     | none => (st, "bad-op")
   | ["upalias", d, a] =>
     match d.toNat?, a.toNat? with
-    | some d, some a => ix (stepIdx st.idx (.updateAlias d a))
+    | some d, some a => msg st (.idx (.updateAlias d a))
     | _, _ => (st, "bad-op")
+  | ["enable", b] =>
+    match b.toNat? with
+    | some b => msg st (.setEnable (b != 0))
+    | none => (st, "bad-op")
   | _ => (st, "bad-op")
 
-def main : IO Unit := runDriver step ⟨ledger0, idx0⟩
+def main : IO Unit := runDriver step st0
